@@ -284,6 +284,12 @@ func VerifCreateOp(arg string) {
 	// is not compensated (Txn rolls back nothing for a failed condition)
 	vKnown("F-C10-create-alloc-not-compensated", w.leakRegion)
 	// every failure leaves no record, container or usage behind (C11/C12); usage = ledger (C10)
+	// an allocation that was given back must not belong to an instance that is still recorded
+	for _, wl := range w.st.workloads {
+		if s := vSlot(wl.Resources); s != "" {
+			vAssert("C11,C12/rollback-gives-back-only-the-failed-instances-allocations", !w.returned[s])
+		}
+	}
 	vAssert("C11,C12/create-records-exactly-the-successes", len(w.st.workloads) == okCount)
 	vAssert("C11,C12/create-leaves-no-stray-container", len(w.applied) == okCount)
 	for _, n := range []string{"a", "b"} {
